@@ -221,6 +221,20 @@ func c19Subjects() []c19Subject {
 			}
 			return &db
 		}, func(o any) string { return deepdump.Dump(o) }, dbOps},
+		// a database holding lists a caller put together by hand: one whose ListSize field was never
+		// brought up to date, one with a signature header. Encoding is read-only whatever the fields say.
+		{"signature database with hand-built lists (stale ListSize, signature header)", func() any {
+			db, err := signature.ReadSignatureDatabase(bytes.NewReader(dbBytes))
+			if err != nil {
+				panic(err)
+			}
+			stale := &signature.SignatureList{SignatureType: signature.CERT_SHA256_GUID, ListSize: 28, Size: 48, SignatureHeader: []byte{},
+				Signatures: []signature.SignatureData{{Owner: unwire(ownerA), Data: fill(32, 0x71)}, {Owner: unwire(ownerB), Data: fill(32, 0x72)}}}
+			hdr := &signature.SignatureList{SignatureType: signature.CERT_RSA2048_GUID, HeaderSize: 4, SignatureHeader: []byte{1, 2, 3, 4}, Size: 16 + 256, ListSize: 28 + 4 + 16 + 256,
+				Signatures: []signature.SignatureData{{Owner: unwire(ownerA), Data: fill(256, 0x73)}}}
+			db = append(db, stale, hdr)
+			return &db
+		}, func(o any) string { return deepdump.Dump(o) }, dbOps[:4]},
 		{"signed-update value", func() any {
 			db, _ := signature.ReadSignatureDatabase(bytes.NewReader(dbBytes))
 			_, m, err := signature.SignEFIVariable(efivar.Db, &db, keys.K(1), keys.C(1))
